@@ -255,7 +255,7 @@ fn qps() -> Vec<Qp> {
             qi: if has_c && c != 'L' { if c == 'D' { vec![(0, 1, 1, 2.0)] } else { vec![(0, 0, 0, 2.0), (0, 1, 0, 1.0), (1, 2, 2, -4.0), (1, 2, 0, 0.5)] } } else { vec![] },
             bi: if has_c { if nolin && c != 'L' { vec![(0, 0, 1.0), (0, 2, -1.0)] } else { vec![(0, 0, 1.0), (0, 2, -1.0), (1, 1, 2.0)] } } else { vec![] }, inf,
             cl: if has_c { vec![-inf, 1.0] } else { vec![] }, cu: if has_c { vec![[4.0, 0.0, -2.0, 5.0][k], if k == 3 { 6.0 } else { inf }] } else { vec![] },
-            lb: vec![0.0, [-3.0, -inf, 0.0, 1.0][k], -1e21], ub: vec![1.0, 5.0, if k == 1 { 2e20 } else { 8.0 }],
+            lb: vec![[0.0, 1.0, 0.0, 0.0][(k + c as usize) % 4], [-3.0, -inf, 0.0, 1.0][k], -1e21], ub: vec![[1.0, 1.0, 0.0, 1.0][(k + c as usize) % 4], 5.0, if k == 1 { 2e20 } else { 8.0 }],   // variable 1: [0,1], fixed [1,1], fixed [0,0]
             types: vec![if vk == 'M' { 2 } else { 1 }, 0, if vk == 'G' { 1 } else { 0 }], names: if k % 2 == 0 { vec![(0, "alpha"), (2, "gamma")] } else { vec![] } });
     } } }
     v
